@@ -21,7 +21,7 @@ def gen_features(rng, n, count):
     feats = []
     for _ in range(count):
         shape = rng.choice(["simple", "simple", "compound", "span", "extended", "whole_source",
-                            "whole", "source_part", "source_gappy", "single"])
+                            "whole", "source_part", "source_gappy", "source_span", "single"])
         st = rng.choice([1, -1, 0])
         typ = rng.choice(["misc_feature", "CDS", "gene", "promoter"])
         parts = None
@@ -44,6 +44,13 @@ def gen_features(rng, n, count):
         elif shape == "span" and n >= 2:
             a = rng.randrange(1, n)
             b = rng.randrange(1, a + 1)
+            parts = [[a, n, st], [0, b, st]]
+            if st == -1:
+                parts.reverse()
+        elif shape == "source_span" and n >= 3:
+            typ = "source"
+            a = rng.randrange(2, n)
+            b = rng.randrange(1, a)
             parts = [[a, n, st], [0, b, st]]
             if st == -1:
                 parts.reverse()
